@@ -50,6 +50,16 @@ Proof.
     replace (length h - p <? 1)%nat with false by (symmetry; apply Nat.ltb_ge; lia). f_equal. f_equal. lia.
 Qed.
 
+Lemma u8_as_next_left_pos h p : ascii_hay h -> (p <= length h)%nat -> ix_next_left_pos u8 h p = ix_next_left_pos ascii_indexer h p.
+Proof.
+  intros Ha Hp. simpl. unfold u8_next_left_pos, as_next_left_pos, try_move_left.
+  destruct (p =? 0)%nat eqn:E.
+  - apply Nat.eqb_eq in E. subst p. reflexivity.
+  - apply Nat.eqb_neq in E. unfold psub. replace (1 <=? p)%nat with true by (symmetry; apply Nat.leb_le; lia). cbn [bindR].
+    destruct (ascii_getb h (p - 1) Ha ltac:(lia)) as (b & -> & Hb). cbn [bindR]. rewrite Hb.
+    replace (p <? 1)%nat with false by (symmetry; apply Nat.ltb_ge; lia). reflexivity.
+Qed.
+
 Lemma u8_cursor (h : hay) fwd p c p' : (p <= length h)%nat -> cnext u8 fwd h p = Ok (Some (c, p')) -> (p' <= length h)%nat.
 Proof.
   intro Hp. unfold cnext. destruct fwd; simpl.
@@ -111,6 +121,7 @@ Proof.
                        u8_cursor (fun c => c < 128) (fun h' fwd q c q' A1 A2 A3 => u8_small h' fwd q c q' A1 A2 A3)
                        fold_agree h Ha); auto.
   - intros q Hq. apply u8_as_next_right_pos; assumption.
+  - intros q Hq. apply u8_as_next_left_pos; assumption.
   - intros q q' Hq H. rewrite (u8_as_next_right_pos h q Ha Hq) in H. eapply ascii_next_bound; eauto.
 Qed.
 
